@@ -303,15 +303,30 @@ def compare(e: Engine, name, got, exp, *, enumerate_small=True):
         if (got.kind == "bool") != (exp.kind == "bool"):
             e.prove(f"{name}: boolean-ness of dtype (got {got.kind}, expected {exp.kind})", False, kind="ensures")
             return
-        idx, hyps = fresh_index(e, exp.shape)
-        e.hyps.extend(hyps)
-        try:
-            with engine.no_div_guard():
-                x = exp.at_(idx)
-            g = got.at_(idx)
-            e.prove(f"{name}: every element equals the spec", elem_eq(g, x), kind="ensures")
-        finally:
-            del e.hyps[len(e.hyps) - len(hyps):]
+        # small concrete axes (channel / direction axes) are enumerated, the others get a fresh symbolic index
+        small = [ax for ax, d in enumerate(exp.shape) if isinstance(d, int) and 1 < d <= 4]
+        import itertools
+        combos = list(itertools.product(*[range(exp.shape[ax]) for ax in small])) if small else [()]
+        if len(combos) > 16:
+            small, combos = [], [()]
+        for combo in combos:
+            shp = list(exp.shape)
+            for ax in small:
+                shp[ax] = 1
+            idx, hyps = fresh_index(e, shp)
+            idx = list(idx)
+            for ax, v in zip(small, combo):
+                idx[ax] = v
+            idx = tuple(idx)
+            e.hyps.extend(hyps)
+            try:
+                with engine.no_div_guard():
+                    x = exp.at_(idx)
+                g = got.at_(idx)
+                tag = "" if not small else " at " + ",".join(f"axis{ax}={v}" for ax, v in zip(small, combo))
+                e.prove(f"{name}: every element equals the spec{tag}", elem_eq(g, x), kind="ensures")
+            finally:
+                del e.hyps[len(e.hyps) - len(hyps):]
         return
     # scalars
     if isinstance(got, (SInt, SFloat, int, float)) or isinstance(exp, (SInt, SFloat, int, float)):
@@ -382,7 +397,9 @@ def verify_contract(c: Contract, *, only_case=None):
             from . import ops as _ops
             with shimmed(), stubbed(except_for={c.qualname} | c.inline), _ops.scan_rules(*ctx.get("scan_rules", [])):
                 try:
-                    res = fn(*args, **kwargs)
+                    import io
+                    with contextlib.redirect_stdout(io.StringIO()):
+                        res = fn(*args, **kwargs)
                 except engine.PathAbort:
                     raise
                 except OutsideSubset:
